@@ -250,6 +250,17 @@ def rule_bypass(program, ctx):
             ctx.bad(finding_at(P, rid, cfg.ast_of(e), "ephemeral events are enqueued for storage on LMDB: they become queryable until a GC pass"))
         else:
             ctx.ok(rid, cfg.ast_of(e), "enqueue only if not event.is_ephemeral")
+    # no other function of the LMDB backend hands events to the writer (e.g. an override that parks ephemeral events for the other workers)
+    kvm = program.module("nostr_relay.storage.kv")
+    for c in ast.walk(kvm.tree):
+        if isinstance(c, ast.Call) and call_name(c).endswith("writer_queue.put") and c.args and isinstance(c.args[0], ast.Tuple) and c.args[0].elts and getattr(c.args[0].elts[0], "value", None) == "add":
+            q = qual_of(c)
+            if q != "LMDBStorage.add_event":
+                from ..lib import guard_atoms
+                f2 = next((a for a in ancestors(c) if isinstance(a, (ast.FunctionDef, ast.AsyncFunctionDef))), None)
+                atoms = guard_atoms(c, stop=f2) if f2 is not None else []
+                if not any("is_ephemeral" in ast.unparse(e) and not pol for e, pol in atoms):
+                    ctx.bad(finding_at(P, rid, c, f"{q} enqueues events for storage without excluding ephemeral kinds: they are written to LMDB (kind 29999 is beyond the collector's end key and is never removed)"))
     ps = cfg.stmt_nodes(lambda s: any(call_name(c) == "self.post_save" for c in own_calls(s)), kinds=("stmt",))
     eph_only = test_edges(cfg, lambda e, p: dotted(e) == "event.is_ephemeral")
     for p_ in ps:
@@ -458,6 +469,7 @@ def run(program, ctx):
     # 'together with all their index entries': the SQL collector deletes event rows only - the tag rows go through ON DELETE CASCADE, which needs the per-connection pragma
     c07.rule_cascade(program, ctx, prop=P, rid="C17.cascade")
     c01.rule_tagindex(program, ctx, prop=P, rid="C17.tagindex")
+    c07.rule_enqueue(program, ctx, prop=P, rid="C17.enqueue")
     ctx.note("informational: the LMDB GC's end key to_key(29999) is a strict prefix of every kind-29999 key, so `key > end` stops before them; moot today because "
              "ephemeral events are never written to LMDB (C17.bypass)")
     ctx.not_decided += [
